@@ -14,6 +14,7 @@ From SV Require Import Model.PtSolution.
 From SV Require Import Model.Kang.
 From SV Require Import Model.Visibility.
 From SV Require Import Model.Directivity.
+From SV Require Import Model.Stokes.
 Require Extraction.
 From Coq Require Import ExtrOcamlBasic.
 Extraction Language OCaml.
@@ -27,4 +28,6 @@ Extraction "model.ml"
   kang_run kang_resp kN kdelay0 ke0 kinit_with korders_from kpdist kdelay kff_offset
   project_to_plane rotation_matrix rotation_to_z mvec point_in_polygon basic_visibility
   visible_all check_point2patch check_patch2patch unit_of metrics_w frame_dir_n frame_dir lookup
-  nearest_freq dir_index freq_index dirfac source_dirfac recv_dirfac.
+  nearest_freq dir_index freq_index dirfac source_dirfac recv_dirfac sample_pts sample_conn
+  load_stokes_entries newton_cotes_4th stokes_integration stokes_nocut coincidence_check
+  universal_branch patch2patch_ff ff_full.
